@@ -60,6 +60,16 @@ class C05(Check):
         for _ in range(400 if not thorough else 6000):
             sh = G.random_shape(rng, small=True)
             descs.append((G.tx_desc(rng, **sh), "random-type%d" % sh["rct_type"]))
+        # twins: the same prefix under different RingCT data (a re-signed copy), one right after the other - the id must follow
+        # the whole transaction, never the prefix alone
+        import random as _random
+        for k in range(40 if not thorough else 400):
+            sh = G.random_shape(rng, small=True)
+            while sh["version"] == 1 or not sh["in_kinds"] or sh["rct_type"] == 0:
+                sh = G.random_shape(rng, small=True)
+            seed = rng.getrandbits(32)
+            for _ in range(2):
+                descs.append((G.tx_desc(rng, prefix_rng=_random.Random(seed), **sh), "same-prefix-twin"))
         descs.append((G.tx_desc(rng, 2, [], 1, [], 0, extra_len=0), "zero-input-v2"))
         descs.append((G.tx_desc(rng, 3, [], 1, [True, False], 0), "zero-input-v3"))
         enc = self.ctx.model_many(["enc %s tx %s" % (sz, " ".join(t)) for t, _ in descs])
